@@ -1,4 +1,4 @@
-(* Model of crates/apollo-compiler/src/coordinate.rs : FromStr, Display and lookup. *)
+(* Model of crates/apollo-compiler/src/coordinate.rs : FromStr, Display and coord_lookup. *)
 From ApolloVerif Require Import Base.Chars.
 
 Inductive coord :=
@@ -65,11 +65,11 @@ Definition parse_dir_arg_coord (s : str) : option (str * str) :=
   end.
 
 (* SchemaCoordinate::from_str : the or_else chain *)
-Definition starts_with (ch : N) (s : str) : bool :=
+Definition coord_starts_with (ch : N) (s : str) : bool :=
   match s with c :: _ => c =? ch | [] => false end.
 
 Definition parse_coord (s : str) : option coord :=
-  if starts_with c_at s then
+  if coord_starts_with c_at s then
     match parse_dir_arg_coord s with
     | Some (d, a) => Some (CDirArg d a)
     | None => match parse_dir_coord s with Some d => Some (CDir d) | None => None end
@@ -113,126 +113,126 @@ Inductive CoordShape : str -> Prop :=
 | ShDirArg d a : IsName d -> IsName a ->
     CoordShape (c_at :: d ++ [c_lparen] ++ a ++ [c_colon; c_rparen]).
 
-(* ---- schema side: what lookup needs ---- *)
+(* ---- coord_schema side: what coord_lookup needs ---- *)
 
 (* a field or directive: own name and argument names, in order *)
-Record fielddef := { f_name : str; f_args : list str }.
+Record coord_field := { cf_name : str; cf_args : list str }.
 
-Inductive tykind := KScalar | KObject | KInterface | KUnion | KEnum | KInput.
+Inductive coord_kind := CKScalar | CKObject | CKInterface | CKUnion | CKEnum | CKInput.
 
 (* a type: own name, kind, attributes (fields / input fields / enum values) keyed by name.
-   For input fields and enum values f_args is empty. *)
-Record tydef := { t_name : str; t_kind : tykind; t_attrs : list (str * fielddef) }.
+   For input fields and enum values cf_args is empty. *)
+Record coord_type := { ct_name : str; ct_kind : coord_kind; ct_attrs : list (str * coord_field) }.
 
-Record schema := { s_types : list (str * tydef); s_dirs : list (str * fielddef) }.
+Record coord_schema := { cs_types : list (str * coord_type); cs_dirs : list (str * coord_field) }.
 
-Fixpoint str_eqb (a b : str) : bool :=
+Fixpoint coord_str_eqb (a b : str) : bool :=
   match a, b with
   | [], [] => true
-  | x :: a, y :: b => (x =? y) && str_eqb a b
+  | x :: a, y :: b => (x =? y) && coord_str_eqb a b
   | _, _ => false
   end.
 
 (* IndexMap::get : first entry with the key (keys are unique in an IndexMap) *)
-Fixpoint assoc {A} (k : str) (m : list (str * A)) : option A :=
+Fixpoint coord_assoc {A} (k : str) (m : list (str * A)) : option A :=
   match m with
   | [] => None
-  | (k', v) :: r => if str_eqb k k' then Some v else assoc k r
+  | (k', v) :: r => if coord_str_eqb k k' then Some v else coord_assoc k r
   end.
 
 (* argument_by_name: arguments.iter().find(|a| a.name == name) *)
-Definition find_arg (a : str) (args : list str) : option str :=
-  find (str_eqb a) args.
+Definition coord_find_arg (a : str) (args : list str) : option str :=
+  find (coord_str_eqb a) args.
 
-Inductive found :=
-| FType (name : str) (k : tykind)
-| FDirective (name : str)
-| FField (name : str)
-| FInputField (name : str)
-| FEnumValue (name : str)
-| FArgument (name : str).
+Inductive coord_found :=
+| CFType (name : str) (k : coord_kind)
+| CFDirective (name : str)
+| CFField (name : str)
+| CFInputField (name : str)
+| CFEnumValue (name : str)
+| CFArgument (name : str).
 
-Inductive lookup_err := MissingType | MissingAttribute | InvalidArgumentAttribute | MissingArgument | InvalidType.
+Inductive coord_lookup_err := CEMissingType | CEMissingAttribute | CEInvalidArgumentAttribute | CEMissingArgument | CEInvalidType.
 
-Inductive res := ROk (f : found) | RErr (e : lookup_err).
+Inductive coord_res := CoordOk (f : coord_found) | CoordErr (e : coord_lookup_err).
 
-Definition lookup_type (t : str) (s : schema) : option tydef := assoc t (s_types s).
+Definition coord_lookup_type (t : str) (s : coord_schema) : option coord_type := coord_assoc t (cs_types s).
 
-Definition lookup_attr (t a : str) (s : schema) : res + (tykind * fielddef) :=
-  match lookup_type t s with
-  | None => inl (RErr MissingType)
+Definition coord_lookup_attr (t a : str) (s : coord_schema) : coord_res + (coord_kind * coord_field) :=
+  match coord_lookup_type t s with
+  | None => inl (CoordErr CEMissingType)
   | Some td =>
-      match t_kind td with
-      | KUnion | KScalar => inl (RErr InvalidType)
-      | k => match assoc a (t_attrs td) with
-             | None => inl (RErr MissingAttribute)
+      match ct_kind td with
+      | CKUnion | CKScalar => inl (CoordErr CEInvalidType)
+      | k => match coord_assoc a (ct_attrs td) with
+             | None => inl (CoordErr CEMissingAttribute)
              | Some fd => inr (k, fd)
              end
       end
   end.
 
-Definition lookup (c : coord) (s : schema) : res :=
+Definition coord_lookup (c : coord) (s : coord_schema) : coord_res :=
   match c with
   | CType t =>
-      match lookup_type t s with
-      | Some td => ROk (FType (t_name td) (t_kind td))
-      | None => RErr MissingType
+      match coord_lookup_type t s with
+      | Some td => CoordOk (CFType (ct_name td) (ct_kind td))
+      | None => CoordErr CEMissingType
       end
   | CAttr t a =>
-      match lookup_attr t a s with
+      match coord_lookup_attr t a s with
       | inl e => e
-      | inr (KEnum, fd) => ROk (FEnumValue (f_name fd))
-      | inr (KInput, fd) => ROk (FInputField (f_name fd))
-      | inr (_, fd) => ROk (FField (f_name fd))
+      | inr (CKEnum, fd) => CoordOk (CFEnumValue (cf_name fd))
+      | inr (CKInput, fd) => CoordOk (CFInputField (cf_name fd))
+      | inr (_, fd) => CoordOk (CFField (cf_name fd))
       end
   | CFieldArg t f a =>
-      match lookup_attr t f s with
+      match coord_lookup_attr t f s with
       | inl e => e
-      | inr (KObject, fd) | inr (KInterface, fd) =>
-          match find_arg a (f_args fd) with
-          | Some x => ROk (FArgument x)
-          | None => RErr MissingArgument
+      | inr (CKObject, fd) | inr (CKInterface, fd) =>
+          match coord_find_arg a (cf_args fd) with
+          | Some x => CoordOk (CFArgument x)
+          | None => CoordErr CEMissingArgument
           end
-      | inr _ => RErr InvalidArgumentAttribute
+      | inr _ => CoordErr CEInvalidArgumentAttribute
       end
   | CDir d =>
-      match assoc d (s_dirs s) with
-      | Some fd => ROk (FDirective (f_name fd))
-      | None => RErr MissingType
+      match coord_assoc d (cs_dirs s) with
+      | Some fd => CoordOk (CFDirective (cf_name fd))
+      | None => CoordErr CEMissingType
       end
   | CDirArg d a =>
-      match assoc d (s_dirs s) with
-      | None => RErr MissingType
+      match coord_assoc d (cs_dirs s) with
+      | None => CoordErr CEMissingType
       | Some fd =>
-          match find_arg a (f_args fd) with
-          | Some x => ROk (FArgument x)
-          | None => RErr MissingArgument
+          match coord_find_arg a (cf_args fd) with
+          | Some x => CoordOk (CFArgument x)
+          | None => CoordErr CEMissingArgument
           end
       end
   end.
 
-(* A schema as the builder produces it: every map key equals the element's own name. *)
+(* A coord_schema as the builder produces it: every map key equals the element's own name. *)
 Definition keys_agree {A} (nm : A -> str) (m : list (str * A)) : Prop :=
   Forall (fun kv => nm (snd kv) = fst kv) m.
-Definition wf_schema (s : schema) : Prop :=
-  keys_agree t_name (s_types s) /\ keys_agree f_name (s_dirs s) /\
-  Forall (fun kv => keys_agree f_name (t_attrs (snd kv))) (s_types s).
+Definition wf_schema (s : coord_schema) : Prop :=
+  keys_agree ct_name (cs_types s) /\ keys_agree cf_name (cs_dirs s) /\
+  Forall (fun kv => keys_agree cf_name (ct_attrs (snd kv))) (cs_types s).
 
 (* Declarative: element x of s has coordinate c *)
-Inductive HasCoord (s : schema) : coord -> found -> Prop :=
-| HC_type t td : In td (map snd (s_types s)) -> t_name td = t ->
-    HasCoord s (CType t) (FType t (t_kind td))
-| HC_field t a td fd : In td (map snd (s_types s)) -> t_name td = t ->
-    (t_kind td = KObject \/ t_kind td = KInterface) ->
-    In fd (map snd (t_attrs td)) -> f_name fd = a -> HasCoord s (CAttr t a) (FField a)
-| HC_input t a td fd : In td (map snd (s_types s)) -> t_name td = t -> t_kind td = KInput ->
-    In fd (map snd (t_attrs td)) -> f_name fd = a -> HasCoord s (CAttr t a) (FInputField a)
-| HC_enum t a td fd : In td (map snd (s_types s)) -> t_name td = t -> t_kind td = KEnum ->
-    In fd (map snd (t_attrs td)) -> f_name fd = a -> HasCoord s (CAttr t a) (FEnumValue a)
-| HC_farg t f a td fd : In td (map snd (s_types s)) -> t_name td = t ->
-    (t_kind td = KObject \/ t_kind td = KInterface) ->
-    In fd (map snd (t_attrs td)) -> f_name fd = f -> In a (f_args fd) ->
-    HasCoord s (CFieldArg t f a) (FArgument a)
-| HC_dir d fd : In fd (map snd (s_dirs s)) -> f_name fd = d -> HasCoord s (CDir d) (FDirective d)
-| HC_darg d a fd : In fd (map snd (s_dirs s)) -> f_name fd = d -> In a (f_args fd) ->
-    HasCoord s (CDirArg d a) (FArgument a).
+Inductive HasCoord (s : coord_schema) : coord -> coord_found -> Prop :=
+| HC_type t td : In td (map snd (cs_types s)) -> ct_name td = t ->
+    HasCoord s (CType t) (CFType t (ct_kind td))
+| HC_field t a td fd : In td (map snd (cs_types s)) -> ct_name td = t ->
+    (ct_kind td = CKObject \/ ct_kind td = CKInterface) ->
+    In fd (map snd (ct_attrs td)) -> cf_name fd = a -> HasCoord s (CAttr t a) (CFField a)
+| HC_input t a td fd : In td (map snd (cs_types s)) -> ct_name td = t -> ct_kind td = CKInput ->
+    In fd (map snd (ct_attrs td)) -> cf_name fd = a -> HasCoord s (CAttr t a) (CFInputField a)
+| HC_enum t a td fd : In td (map snd (cs_types s)) -> ct_name td = t -> ct_kind td = CKEnum ->
+    In fd (map snd (ct_attrs td)) -> cf_name fd = a -> HasCoord s (CAttr t a) (CFEnumValue a)
+| HC_farg t f a td fd : In td (map snd (cs_types s)) -> ct_name td = t ->
+    (ct_kind td = CKObject \/ ct_kind td = CKInterface) ->
+    In fd (map snd (ct_attrs td)) -> cf_name fd = f -> In a (cf_args fd) ->
+    HasCoord s (CFieldArg t f a) (CFArgument a)
+| HC_dir d fd : In fd (map snd (cs_dirs s)) -> cf_name fd = d -> HasCoord s (CDir d) (CFDirective d)
+| HC_darg d a fd : In fd (map snd (cs_dirs s)) -> cf_name fd = d -> In a (cf_args fd) ->
+    HasCoord s (CDirArg d a) (CFArgument a).
